@@ -230,7 +230,10 @@ def ds_strategy(tier):
                 "axis": draw(st.sampled_from(gen.AXES_FOR_SCORES + ["obs", "fcst"])),
                 "agg": draw(st.sampled_from(AGGS)),
                 "edges": sorted(draw(st.lists(st.integers(-40, 40).map(lambda i: i / 4.0), min_size=2, max_size=3, unique=True))),
-                "bin": draw(st.sampled_from(["within", "within=", "=within", "=within=", "above", "below="]))}
+                "bin": draw(st.sampled_from(["within", "within=", "=within", "=within=", "above", "below="])),
+                # -r / -b given although the axis is a data dimension: a deterministic score does not depend on them; 'within' is
+                # scored for that one event
+                "with_r": draw(st.sampled_from([False, True]))}
     return s()
 
 
@@ -244,13 +247,22 @@ def check_dataset(case, ctx):
     axis = case["axis"]
     n_in = len(spec["inputs"])
     ctx.label("axis=" + axis)
-    for name in ([case["metric"]] if case.get("metric") else case["metrics"]):
+    with_r = bool(case.get("with_r")) and axis not in ("obs", "fcst")
+    one_event = (case["edges"][:2] if case["bin"] in model.WITHIN_TYPES else case["edges"][:1])
+    names = [case["metric"]] if case.get("metric") else (list(case["metrics"]) + (["within"] if with_r else []))
+    if with_r:
+        ctx.label("-r/-b with a data axis")
+    for name in names:
         supports = name in mrun.SUPPORTS_AGG
         agg = case["agg"] if supports else "mean"
         data = mat.make_data(spec)
         kw = {}
         if axis in ("obs", "fcst"):
             kw = {"thresholds": case["edges"], "bin_type": case["bin"]}
+        elif with_r:
+            kw = {"thresholds": one_event if name == "within" else case["edges"], "bin_type": case["bin"]}
+        elif name == "within":
+            continue
         try:
             y = mrun.scores(data, name, axis, agg=(agg if agg != "mean" else None), **kw)
         except (Exception, SystemExit) as e:
@@ -280,7 +292,11 @@ def check_dataset(case, ctx):
                     if evs is not None:
                         pos = 0 if axis == "obs" else 1
                         cs = [c for c in cs if model.in_event(case["bin"], c[pos], evs[k][0], evs[k][1])]
-                    ref = model.det_metric(name, cs, agg)
+                    if name == "within":
+                        ev = model.events(case["bin"], one_event)[0]
+                        ref = (100.0 * sum(1 for a_, c_ in cs if model.in_event(case["bin"], abs(a_ - c_), ev[0], ev[1])) / len(cs)) if cs else None
+                    else:
+                        ref = model.det_metric(name, cs, agg)
                 if ref is not None and math.isnan(ref):
                     ref = None
                 if len(cs) == 0 and agg == "count":
